@@ -82,7 +82,7 @@ let process line =
   let df s = diff := s :: !diff in
   let labelled s =
     List.exists (fun l -> String.length s >= String.length l && String.sub s 0 (String.length l) = l)
-      ["wildcard-mass"; "scale-zero"; "unscale-inexact"; "offset-i32"; "sf-last-entry-unclipped"] in
+      ["unscale-inexact"] in
   let finish () =
     let pfs = List.rev !propfail in
     let pfs = List.filter (fun s -> not (labelled s)) pfs @ List.filter labelled pfs in
@@ -104,12 +104,6 @@ let process line =
     let mvals : F64.t list list = List.map (List.map f64_of_f32bits) m_bits in
     let in_scope = c11_in_scope mvals bg64 in
     scope := in_scope;
-    (match q_stage_a (List.map (List.map (fun b -> f64_cell (f64_of_f32bits b))) m_bits) with
-     | Ok (off, _) ->
-         let lim = inject_Z (z_of_u64 0x7FFFFFFFL) in
-         let wo = qmult (inject_Z (z_of_int mrows)) (qabs off) in
-         if not (qle_bool wo lim) then prefix := "offset-i32 "
-     | _ -> ());
     if not (f64_ninf_agrees cells64) then df "model-selfcheck disc_ninf";
     lap "parse";
     let model = f64_build cells64 bg64 in
@@ -211,9 +205,6 @@ let process line =
          let fails = check_C11_fails mvals bg64 impl_sf_vals pvl
              (List.map (fun (_, _, _, x) -> x) brl) (List.map (fun (_, _, _, _, _, x) -> x) rtl) in
          lap "check_C11";
-         let wild_mass = (match List.nth_opt bg_bits 4 with Some b -> Int64.logand b 0x7FFFFFFFL <> 0L | None -> false) in
-         let wild_ninf = List.exists (fun r -> List.nth r 4 = 0xFF800000L) m_bits in
-         let qcells () = List.map (List.map (fun b -> f64_cell (f64_of_f32bits b))) m_bits in
          List.iter (fun (kind, idx) ->
              match int_of_nat kind, int_of_nat idx with
              | (1 | 2) as code, _ ->
@@ -224,9 +215,7 @@ let process line =
                      if not (v >= 0.0 && v <= 1.0) then bad := i
                      else if i + 1 < n_impl && not (Int64.float_of_bits impl_sf_bits.(i + 1) <= v) then bad := i + 1 end) impl_sf_bits;
                  let v = if !bad >= 0 then Int64.float_of_bits impl_sf_bits.(!bad) else nan in
-                 if !bad = n_impl - 1 && v > 1.0 then
-                   pf (Printf.sprintf "sf-last-entry-unclipped sf[%d]=%.17g > 1 (last entry of %d)" !bad v n_impl)
-                 else if code = 1 then pf (Printf.sprintf "sf-range sf[%d]=%.17g outside [0,1]" !bad v)
+                 if code = 1 then pf (Printf.sprintf "sf-range sf[%d]=%.17g outside [0,1]" !bad v)
                  else pf (Printf.sprintf "sf-monotone sf[%d]=%.17g above its predecessor" !bad v)
              | (3 | 4 | 5) as code, bi ->
                  let (i, sb, po, _) = List.nth brl bi in
@@ -245,28 +234,18 @@ let process line =
                           (float_of_q (tail_dy tab (c11_k mvals) (c11_j bg64) (z_of_int mrows)
                                          (if code = 3 then qplus sq dd else qminus sq dd)), float_of_q dd)
                       | _ -> (nan, nan)) in
-                   let label =
-                     if code = 4 && wild_mass && wild_ninf && pvf = 1.0 then "wildcard-mass below-minimum p-value 1.0 exceeds"
-                     else if code = 3 then "bracket-below" else "bracket-above" in
+                   let label = if code = 3 then "bracket-below" else "bracket-above" in
                    pf (Printf.sprintf "%s probe#%d score=%.9g pvalue=%.17g %s exact tail %.17g at s%sd d=%.6g M=%d"
                          label i sf_ pvf (if code = 3 then "<" else ">") bound (if code = 3 then "+" else "-") dq mrows)
                  end
              | 6, _ ->
-                 (* a p-value above 1 can only be the unclipped last table entry *)
-                 let above1 = List.exists (fun po -> po <> "P" && Int64.float_of_bits (u64_of_string po) > 1.0) pv_obs in
-                 pf ((if above1 then "sf-last-entry-unclipped " else "") ^ "pvalue-monotone a larger score got a larger p-value")
+                 pf "pvalue-monotone a larger score got a larger p-value"
              | 7, ri ->
                  let (tag, i, pbits, sobs, robs, (p64, _)) = List.nth rtl ri in
-                 let scale_zero = (match q_stage_a (qcells ()) with
-                     | Ok (_, sc) -> qle_bool sc { qnum = Z0; qden = XH } | _ -> false) in
                  let inexact = (match f64_bsearch d p64 with
                      | Ok x -> not (f64_index_exact d (z_of_int (int_of_nat x))) | _ -> false) in
                  let rtv = Int64.float_of_bits (u64_of_string robs) in
-                 let label =
-                   if scale_zero then "scale-zero roundtrip"
-                   else if inexact then "unscale-inexact roundtrip"
-                   else if wild_mass && wild_ninf && rtv = 1.0 then "wildcard-mass roundtrip"
-                   else "roundtrip" in
+                 let label = if inexact then "unscale-inexact roundtrip" else "roundtrip" in
                  pf (Printf.sprintf "%s %s#%d p=%.17g score=%.9g pvalue(score(p))=%.17g > p" label tag i
                        (Int64.float_of_bits pbits) (Int32.float_of_bits (Int64.to_int32 (u64_of_string sobs))) rtv)
              | k, i -> pf (Printf.sprintf "check_C11 kind=%d index=%d" k i)) fails);
